@@ -174,7 +174,7 @@ def mutable_ids(root, skip_keys=("jaxnodes", "jaxedges", "base")):
         if obj is None or isinstance(obj, (str, bytes, int, float, bool, complex, type, types.FunctionType, types.BuiltinFunctionType, types.ModuleType)):
             continue
         mod = type(obj).__module__ or ""
-        if mod.startswith("jax") and not isinstance(obj, (list, dict)):
+        if (mod == "jax" or mod.startswith(("jax.", "jaxlib"))) and not isinstance(obj, (list, dict)):
             continue  # immutable device arrays
         if isinstance(obj, (pd.DataFrame, pd.Series, np.ndarray)):
             out[id(obj)] = path
